@@ -220,13 +220,12 @@ var _ utils.PriorityQueue
 //@ props C02 C01
 //@ safety UNCLAIMED
 //@ at call priorityQueue).Pop
-//@ requires [C01 items-known] allQ($arg0.queue)
+//@ requires [C01 items-known] old(istype(neighbors, *utils.priorityQueue) && allQ(neighbors.(*utils.priorityQueue).queue)) ==> allQ($arg0.queue)
 //@ end
-//@ requires [C01 items-known] istype(neighbors, *utils.priorityQueue) && neighbors.pay != 0 && allQ(neighbors.(*utils.priorityQueue).queue)
-//@ ensures [C01 same-queue] ret == neighbors && allQ(ret.(*utils.priorityQueue).queue)
+//@ ensures [C01 same-queue] ret == neighbors && (old(istype(neighbors, *utils.priorityQueue) && allQ(neighbors.(*utils.priorityQueue).queue)) ==> allQ(ret.(*utils.priorityQueue).queue))
 //@ modifies cells[utils.minPriorityQueue], cells[utils.maxPriorityQueue], mem[*utils.PriorityQueueItem]
 //@ loop 1
-//@ invariant [C01 items-known] allQ(neighbors.(*utils.priorityQueue).queue)
+//@ invariant [C01 items-known] old(istype(neighbors, *utils.priorityQueue) && allQ(neighbors.(*utils.priorityQueue).queue)) ==> allQ(neighbors.(*utils.priorityQueue).queue)
 
 //@ func (*index.Hnsw).selectNeighborsHeuristic
 //@ props C02 C01
